@@ -274,6 +274,46 @@ def discharge(fb, body, s):
 
 
 # ---- the rule -----------------------------------------------------------------------------------------
+_SHADOW = [False]
+_SHADOW_OUTCOMES = {}
+
+
+def premise_broken(fb, ctx, premise):
+    """An allow entry may rest on rule instances that another property's check decides (the guard above a subtraction, the
+    take/restore pairing of a handle). Re-evaluate those instances on the current tree: returns None when they all hold, else a
+    description. Not evaluated inside such a re-evaluation (no recursion) nor for the property's own rules (it reports them itself)."""
+    if not premise or _SHADOW[0] or premise["property"] == ctx.pid:
+        return None
+    pid = premise["property"]
+    if pid not in _SHADOW_OUTCOMES:
+        import importlib, framework
+        from facts import CheckerError
+        sh = framework.Ctx(pid)
+        _SHADOW[0] = True
+        try:
+            importlib.import_module("props." + pid.lower()).check(fb, sh)
+            _SHADOW_OUTCOMES[pid] = dict(sh.outcomes)
+        except CheckerError as e:
+            _SHADOW_OUTCOMES[pid] = {"__error__": str(e)}
+        finally:
+            _SHADOW[0] = False
+    oc = _SHADOW_OUTCOMES[pid]
+    if "__error__" in oc:
+        return f"the {pid} rules could not be evaluated ({oc['__error__']})"
+    keys = list(premise.get("keys", []))
+    if premise.get("key_regex"):
+        rx = re.compile(premise["key_regex"])
+        keys += [k for k in oc if rx.search(k)]
+        if not [k for k in oc if rx.search(k)]:
+            return f"no {pid} rule instance matches /{premise['key_regex']}/"
+    for k in keys:
+        if k not in oc:
+            return f"{pid} rule instance `{k}` no longer exists"
+        if not oc[k]:
+            return f"{pid} rule instance `{k}` fails"
+    return None
+
+
 def run(fb, ctx, entry_keys, rule="REACH", stop=lambda k: False, crates=None, exclude_fn=None):
     """Every panic source in a body reachable from entry_keys must be discharged locally or be allow-listed
     (by exact key, with a reason) in tables/panic_sites.json."""
@@ -303,9 +343,14 @@ def run(fb, ctx, entry_keys, rule="REACH", stop=lambda k: False, crates=None, ex
                 continue
             ent = table.get(skey)
             if ent and ent.get("disposition") == "allow":
-                n_allow += 1
-                used.add(skey)
-                ctx.ok(rule, skey, where, "allow-listed: " + ent["reason"])
+                broken = premise_broken(fb, ctx, ent.get("premise"))
+                if broken is None:
+                    n_allow += 1
+                    used.add(skey)
+                    ctx.ok(rule, skey, where, "allow-listed: " + ent["reason"] + (" [premise re-evaluated: holds]" if ent.get("premise") and not _SHADOW[0] and ent["premise"]["property"] != ctx.pid else ""))
+                    continue
+                path = fb.path_to(pred, key)
+                ctx.fail(rule, skey, skey, f"panic source `{s['what']}` on [{det}] is allow-listed only because \"{ent['reason']}\" - but that premise no longer holds: {broken}", where, {"path": path, "operands": det})
                 continue
             path = fb.path_to(pred, key)
             chain = " -> ".join(p for p, _, _ in path[-6:])
